@@ -439,6 +439,33 @@ func stripHiddenRecipients(activity Activity) {
 	}
 }
 
+// stripHiddenRecipientsSerialized removes the 'bto' and 'bcc' members from a
+// serialized value and from the values embedded in its 'object' member - at
+// every depth of 'object' nesting if 'deep' is set. It complements the typed
+// removal: a member of a value whose type has no such property (a Link), whose
+// type is not known, or that sits below an 'object' member its type does not
+// define is kept verbatim by the serializer and never seen by the typed code.
+func stripHiddenRecipientsSerialized(m map[string]interface{}, deep bool) {
+	delete(m, "bto")
+	delete(m, "bcc")
+	var under func(v interface{}, recur bool)
+	under = func(v interface{}, recur bool) {
+		switch n := v.(type) {
+		case map[string]interface{}:
+			delete(n, "bto")
+			delete(n, "bcc")
+			if recur {
+				under(n["object"], true)
+			}
+		case []interface{}:
+			for _, e := range n {
+				under(e, recur)
+			}
+		}
+	}
+	under(m["object"], deep)
+}
+
 // mustHaveActivityOriginMatchObjects ensures that the Host in the activity id
 // IRI matches all of the Hosts in the object id IRIs.
 func mustHaveActivityOriginMatchObjects(a Activity) error {
